@@ -561,7 +561,7 @@ class C19(SweepProp):
             "classes and range ends for both layouts, u32-overflowing count*size / shndx*size. Non-trivial = distinct cases that load.")
 
     def gen(self, tier, rng):
-        return _mbi.gen_elf(rng, tier) + _mbi.gen_wellformed(rng, 40 if tier == "quick" else 400)
+        return _mbi.gen_elf(rng, tier) + _mbi.gen_elfname(rng, tier) + _mbi.gen_wellformed(rng, 40 if tier == "quick" else 400)
 
 
 @register
@@ -616,9 +616,10 @@ class C01(SweepProp):
 
     def gen(self, tier, rng):
         cases = (_mbi.gen_wellformed(rng, 100 if tier == "quick" else 1000) + _mbi.gen_sizes(rng, 1 if tier == "quick" else 3) +
-                 _mbi.gen_strings(rng, 2, 60) + _mbi.gen_efi(rng, tier) + _mbi.gen_elf(rng, tier) + _mbi.gen_fb(rng) + _mbi.gen_misc(rng))
+                 _mbi.gen_strings(rng, 2, 60) + _mbi.gen_efi(rng, tier) + _mbi.gen_elf(rng, tier) + _mbi.gen_fb(rng) + _mbi.gen_misc(rng) +
+                 _mbi.gen_elfname(rng, tier))
         # second placement: flush against the LOWER guard page for a sample
-        extra = [c + " start" for c in cases[:: (7 if tier == "quick" else 2)]]
+        extra = [c + " start" for c in cases[:: (7 if tier == "quick" else 2)] if c.startswith("SWEEP")]
         return cases + extra
 
 
